@@ -53,8 +53,7 @@ theorem blockRows_colsIn (mat : SMat K) (bd : BlockDiag K) (b : Nat)
 
 /-- **the sparse matrix `Hom.finish` builds**: well formed, and its stored rows are the block rows -/
 theorem Hom.finish_rows (mat : SMat K) (bd : BlockDiag K) (rhs : Array K) (Fs : List (CovMat K))
-    (hH : bd.Holds Fs []) (hmat : mat.WF) (hrows : mat.rows = (Fs.map (·.dim)).sum)
-    (hnodup : mat.nodupRows = true) :
+    (hH : bd.Holds Fs []) (hmat : mat.WF) (hrows : mat.rows = (Fs.map (·.dim)).sum) :
     (Hom.finish mat bd rhs).sm.WF ∧
     ∀ k (hk : k < Fs.length) j, 1 ≤ j → j ≤ (Fs[k]'hk).dim →
       (Hom.finish mat bd rhs).sm.rowEntries (rowsBefore Fs k + j) = (blockRows mat bd (k + 1)).getD (j - 1) [] := by
@@ -68,8 +67,7 @@ theorem Hom.finish_rows (mat : SMat K) (bd : BlockDiag K) (rhs : Array K) (Fs : 
       intro b h1 h2 hw
       rw [c4 b h1 h2 hw]
       exact countBlock_snd _ _ _ _ hw)
-    (by rw [hofftot]; exact mat_cols_of_WF mat hmat)
-    (by rw [hofftot]; exact mat_nodup_of mat hnodup) bd.blocks (Nat.le_refl _)
+    (by rw [hofftot]; exact mat_cols_of_WF mat hmat) bd.blocks (Nat.le_refl _)
   obtain ⟨hlen, hlook⟩ := flatMap_range'_getD (blockRows mat bd) bd.dimOf (blockRows_length mat bd) [] bd.blocks
   have hcap := flatMap_range'_flatten_le (blockRows mat bd) (capOf mat bd) bd.blocks
     (fun b _ _ => blockRows_cap mat bd b)
@@ -146,7 +144,7 @@ theorem Hom.run_export
     (tol : K) (htol : 0 < tol) (mat : SMat K) (cov : BlockDiag K) (rhs : Array K)
     (Cs : List (CovMat K)) (tail : List K)
     (hcov : cov.Built Cs tail) (hwf : ∀ C ∈ Cs, C.WF)
-    (hmat : mat.WF) (hrows : mat.rows = (Cs.map (·.dim)).sum) (hnodup : mat.nodupRows = true)
+    (hmat : mat.WF) (hrows : mat.rows = (Cs.map (·.dim)).sum)
     (out : Hom.Out K) (hout : Hom.run tol mat cov rhs = .ok out) :
     out.sm.WF ∧
     ∀ k (hk : k < Cs.length) j, 1 ≤ j → j ≤ (Cs[k]'hk).dim →
@@ -174,7 +172,7 @@ theorem Hom.run_export
     rw [rowsBefore_length Cs] at this
     rw [this, ← hlen, rowsBefore_length]
   obtain ⟨f1, f2⟩ := Hom.finish_rows mat ((cov.replicate 0).cholDec tol).2 rhs Fs hF hmat
-    (by rw [← hsum]; exact hrows) hnodup
+    (by rw [← hsum]; exact hrows)
   refine ⟨f1, ?_⟩
   intro k hk j j1 j2
   have hk' : k < Fs.length := by omega
